@@ -305,26 +305,65 @@ func (g *Gen) Config() *CfgGen {
 		}
 	}
 	g.R.Shuffle(len(c.Watches), func(i, j int) { c.Watches[i], c.Watches[j] = c.Watches[j], c.Watches[i] })
-	if g.R.Intn(4) == 0 {
-		// an auditor that mentions a numeric signal in its predicate is a
-		// watcher too (checkExpr registers it) and gets its own file
+	if g.R.Intn(2) == 0 {
+		// an auditor that mentions a signal in an expression is a watcher
+		// too (checkExpr registers it) and gets its own file - whether or
+		// not it is auditing when the line arrives: its activation period
+		// may be conditional (on that very signal, on the mood, on t), and
+		// it may well be the ONLY watcher of the signal
 		var cands [][2]string
+		kindOf := map[[2]string]int{}
 		for _, r := range c.Roles {
 			for _, s := range r.Sigs {
-				if s.Kind != 0 {
-					for _, a := range r.Actors {
-						cands = append(cands, [2]string{a, s.Name})
-					}
+				for _, a := range r.Actors {
+					cands = append(cands, [2]string{a, s.Name})
+					kindOf[[2]string{a, s.Name}] = s.Kind
 				}
 			}
 		}
-		if len(cands) > 0 {
-			v := cands[g.R.Intn(len(cands))]
-			m := &audgen.Member{Name: "au", CondKind: "none", Modality: g.pick(g.Modalities)}
+		v := cands[g.R.Intn(len(cands))]
+		m := &audgen.Member{Name: "au", CondKind: "none", Modality: g.pick(g.Modalities)}
+		if kindOf[v] == 0 {
+			m.Expect = audgen.Bin(g.pick([]string{"==", "!="}), audgen.V(v[0], v[1]), audgen.Str(g.pick([]string{"up", "down", "ok"})))
+		} else {
 			m.Expect = audgen.Bin(g.pick([]string{">", "<", ">=", "=="}), audgen.V(v[0], v[1]), audgen.Num(int64(g.R.Intn(5))))
-			m.ClauseOrdr = []string{fmt.Sprintf("au expects %s: %s", m.Modality, m.Expect.Src())}
-			c.Auditor = m
-			c.AudVar = v
+		}
+		switch g.R.Intn(5) {
+		case 0: // throughout (no clause)
+		case 1:
+			m.CondKind = "throughout"
+			m.ClauseOrdr = append(m.ClauseOrdr, "au audits throughout")
+		case 2: // by the same signal
+			m.CondKind = "other"
+			if kindOf[v] == 0 {
+				m.Cond = audgen.Bin("==", audgen.V(v[0], v[1]), audgen.Str(g.pick([]string{"up", "down", "mid"})))
+			} else {
+				m.Cond = audgen.Bin(g.pick([]string{">=", "<", ">"}), audgen.V(v[0], v[1]), audgen.Num(int64(g.R.Intn(6))))
+			}
+		case 3: // by the mood
+			m.CondKind = "other"
+			m.Cond = audgen.Bin(g.pick([]string{"==", "!="}), audgen.V("", "mood"), audgen.Str(g.pick([]string{"red", "blue", "clear"})))
+		default: // by the time
+			m.CondKind = "other"
+			m.Cond = audgen.Bin(g.pick([]string{">", "<"}), audgen.V("", "t"), audgen.Num(int64(g.R.Intn(40))))
+		}
+		if m.Cond != nil {
+			m.ClauseOrdr = append(m.ClauseOrdr, "au audits only "+g.pick([]string{"while", "when"})+" "+m.Cond.Src())
+		}
+		m.ClauseOrdr = append(m.ClauseOrdr, fmt.Sprintf("au expects %s: %s", m.Modality, m.Expect.Src()))
+		c.Auditor = m
+		c.AudVar = v
+		if g.R.Intn(2) == 0 {
+			// nobody else watches that signal of that actor
+			r := c.roleOf(v[0])
+			var keep []Watch
+			for _, w := range c.Watches {
+				if w.Sig == v[1] && (w.Target == v[0] || w.Target == "every "+r.Name) {
+					continue
+				}
+				keep = append(keep, w)
+			}
+			c.Watches = keep
 		}
 	}
 	// `only helps`: plotting is switched off for the member, nothing else
